@@ -17,6 +17,7 @@ import (
 
 	"github.com/milvus-io/milvus-proto/go-api/v2/commonpb"
 	clientv3 "go.etcd.io/etcd/client/v3"
+	"go.uber.org/zap"
 
 	"github.com/zilliztech/milvus-cdc/server/model/meta"
 )
@@ -185,9 +186,10 @@ func c12Stores(kv *c12KV, root string) *EtcdMetaStore {
 	cli := &clientv3.Client{KV: kv}
 	txnMap := make(map[any][]clientv3.Op)
 	return &EtcdMetaStore{
+		log:                         zap.NewNop(),
 		etcdClient:                  cli,
-		taskInfoStore:               &TaskInfoEtcdStore{rootPath: root, etcdClient: cli, txnMap: txnMap},
-		taskCollectionPositionStore: &TaskCollectionPositionEtcdStore{rootPath: root, etcdClient: cli, txnMap: txnMap},
+		taskInfoStore:               &TaskInfoEtcdStore{log: zap.NewNop(), rootPath: root, etcdClient: cli, txnMap: txnMap},
+		taskCollectionPositionStore: &TaskCollectionPositionEtcdStore{log: zap.NewNop(), rootPath: root, etcdClient: cli, txnMap: txnMap},
 		txnMap:                      txnMap,
 	}
 }
